@@ -22,19 +22,21 @@ func init() {
 			"Z-codec — every meta row writer in the package has a statically known key/value shape; for each kind (b:, w:<ref>:<n>, w:<ref>, z:) the packer-side and the reindex-side writers produce the same field sequence (separators, ref vs. decimal integer), the parsers (parseMetaRow, parseMetaRowSizeOnly, parseZipMetaRow, conv.ParseFields in OpenWholeRef) expect that field count and kinds in base 10 with a bit size not below the narrowest unsigned type any writer renders for that field; every meta.Find range ends at the successor of its prefix/separator; Manifest/BlobAndPos fields read by reindex/foreachZipBlob are written by writeAZip. " +
 			"Z-count — the reader of the un-suffixed whole-file row (found structurally: the function that parses the row value into integers and compares one of them with the number of part records collected from the ':<idx>'-suffixed keys; today OpenWholeRef, integer #1) returns success only under the fact 'count == number of w:<ref>:<idx> rows found' (so an interrupted pack, which has part rows and no final row, and a count that disagrees with the part rows are refused); every writer of the w:<ref> row (pack, reindex) computes the integer at that position from the very thing that keys the w:<ref>:<idx> rows written by the same pass (the writing function, its literals and the package functions it calls): the struct field holding each part's index (reindex: zipMetaInfo.wholePartIndex) or the collection whose length is each part's index (packer: packer.zips) — 'computed from' = backward data slice incl. locals, one level of package helper calls on the data path, and branch conditions that select merged values; a count taken from how many zips/attempts were seen (len of another collection, a separately bumped counter) is reported. Recorded as supporting fact, not required: the reader fails on a part whose index differs from its position, i.e. indexes are dense 0..count-1. " +
 			"Z-recover — newFromConfig returns a usable store only after checkLargeIntegrity was called and, once reindex was started, only on its success edge; reindex reports success only on the success edge of each of its top-level CommitBatch calls and assigns s.meta the very KeyValue it filled; large.RemoveBlobs (deleting a zip) is only reachable where zipPartsInUse of the same ref succeeded and returned no part in use. " +
-			"NOT decided: equality of client-visible bytes/sizes before, during and after a pack; that the b: rows cover, as run-time sets, exactly the blobs removed from small (only that both are built from the same local sources); zip validity and that the first entry is the contiguous file; accuracy of the size estimate and termination of truncate-and-retry; the arithmetic of the part count (that it is exactly 'highest index + 1' / the number of distinct indexes — only what it is computed from; a separately maintained counter that happens to be right is reported too); any crash schedule or recovery outcome; streaming (StreamBlobs) and whole-file reads beyond the row codec; deletion marks (d: rows).",
+			"Z-whole-blob — every description of a packed blob built in (*packer).writeAZip (each b: row of the batch, resolved per element constructor of the slice it is rendered from, and each element appended to a []BlobAndPos field of the Manifest) is a (ref, size) pair with exactly one source each, and the blob is moved WHOLE: (data chunks) the recorded size is the size result of a Fetch/StatBlob of that ref, or a lookup in a map field of the packer that is not modified inside writeAZip and that a dominating == fact (value-preserving integer conversions looked through; <, <=, >, >= and != facts do not count) equates with the size Fetch reported for the same ref at the point where the ref is recorded as written (the append through which it reaches the row); before that point an io.Copy/CopyN of that Fetch's reader into a zip entry writer is passed on every path, uncapped or capped (CopyN / io.LimitReader) at a length that is the fetched size or proven equal to it, or with the copied byte count proven equal to it; (schema blobs) the recorded size is Size() of the *blob.Blob looked up under the recorded ref in a map field every writer of which stores blob.FromFetcher(_, key) under key, and on every path from the description to the receive of the zip into large an io.Copy from ReadAll of that same Blob (uncapped, or capped at its Size()) goes into a zip entry whose name renders exactly that ref (foreachZipBlob/reindex derive ref and size from the entry). " +
+			"NOT decided: equality of client-visible bytes/sizes before, during and after a pack (Z-whole-blob decides only that size and bytes recorded for a ref are the stored blob's, not offsets, the position of the bytes in the zip or that copy errors are checked; two different elements of the same local slice are not told apart — reported as undecided; fetch/compare/copy moved into a helper is reported as undecided); that the b: rows cover, as run-time sets, exactly the blobs removed from small (only that both are built from the same local sources); zip validity and that the first entry is the contiguous file; accuracy of the size estimate and termination of truncate-and-retry; the arithmetic of the part count (that it is exactly 'highest index + 1' / the number of distinct indexes — only what it is computed from; a separately maintained counter that happens to be right is reported too); any crash schedule or recovery outcome; streaming (StreamBlobs) and whole-file reads beyond the row codec; deletion marks (d: rows).",
 		RuleDocs: map[string]string{
-			"Z-order":   "dominance on err==nil edges in (*packer).writeAZip (receive into large -> CommitBatch -> small.RemoveBlobs), value identity of the zip ref in every batch row, loop-exit fact for the whole-file row in (*packer).pack, who-may-call for small.RemoveBlobs",
-			"Z-size":    "dominating comparison fact zbuf.Len() <= maxZipBlobSize() at the large receive over the very buffer that is received; constant bound of maxZipBlobSize against constants.MaxBlobSize",
-			"Z-read":    "path pruning under the assumption 'row exists and is packed' / 'row is not packed' from each getMetaRow lookup in Fetch/SubFetch/StatBlobs/ReceiveBlob; value dependence of the large read on the row; literal structure of the MergedEnumerate sources",
-			"Z-recover": "dominance: start-up (newFromConfig) returns a store only after checkLargeIntegrity ran and, in a recovery mode, after reindex succeeded; reindex returns success only after every top-level CommitBatch on the new index succeeded and installs that same index; a zip is removed from large only where zipPartsInUse of the same ref succeeded with an empty result",
-			"Z-count":   "writer/reader agreement by value dependence: the integer of the w:<ref> row that the reader requires to equal the number of w:<ref>:<idx> rows (dominating equality fact on every successful return) must, in each writer, depend on the field / collection that the part indexes of the same pass are formatted from",
-			"Z-codec":   "table agreement: statically evaluated Sprintf/concatenation shapes of all meta row writers, compared between sibling writers and with the parse-call chains of the parsers; Find range limits; struct fields read vs. written for the zip manifest",
+			"Z-order":      "dominance on err==nil edges in (*packer).writeAZip (receive into large -> CommitBatch -> small.RemoveBlobs), value identity of the zip ref in every batch row, loop-exit fact for the whole-file row in (*packer).pack, who-may-call for small.RemoveBlobs",
+			"Z-size":       "dominating comparison fact zbuf.Len() <= maxZipBlobSize() at the large receive over the very buffer that is received; constant bound of maxZipBlobSize against constants.MaxBlobSize",
+			"Z-read":       "path pruning under the assumption 'row exists and is packed' / 'row is not packed' from each getMetaRow lookup in Fetch/SubFetch/StatBlobs/ReceiveBlob; value dependence of the large read on the row; literal structure of the MergedEnumerate sources",
+			"Z-recover":    "dominance: start-up (newFromConfig) returns a store only after checkLargeIntegrity ran and, in a recovery mode, after reindex succeeded; reindex returns success only after every top-level CommitBatch on the new index succeeded and installs that same index; a zip is removed from large only where zipPartsInUse of the same ref succeeded with an empty result",
+			"Z-count":      "writer/reader agreement by value dependence: the integer of the w:<ref> row that the reader requires to equal the number of w:<ref>:<idx> rows (dominating equality fact on every successful return) must, in each writer, depend on the field / collection that the part indexes of the same pass are formatted from",
+			"Z-whole-blob": "value dependence + dominating equality facts in (*packer).writeAZip: for every (ref, size) description that reaches a b: row or the manifest, the size is the store-reported size of that very ref or proven == to it where the ref is recorded (an inequality guard does not count), and the bytes copied into the zip come from the fetch of that ref (data) / the *blob.Blob held for that ref (schema) without a cap below that size; the schema entry's zip name renders the same ref",
+			"Z-codec":      "table agreement: statically evaluated Sprintf/concatenation shapes of all meta row writers, compared between sibling writers and with the parse-call chains of the parsers; Find range limits; struct fields read vs. written for the zip manifest",
 		},
 		Run:       runC04,
 		DesignRef: "DESIGN.md §4 C04",
-		Technique: "static analysis: dominance on error-success edges, path pruning under row-state assumptions, value identity/dependence over go/ssa, table agreement between row writers and parsers, value dependence of the stored part count on the part-index source",
-		LevelText: "Decides structural necessary conditions only: the zip is stored before its rows are committed and the rows before loose copies are removed; stored zips are bounded by the blob size limit; reads pick small vs. large by the meta row of the same ref; packer, reindex and the parsers agree on the meta row codec and reindex reads only manifest fields the packer writes; the part count of the whole-file row is computed from the part indexes that key the part rows and the reader serves a whole file only when both agree. Does not decide the arithmetic of that count, byte-level equality of what clients see, crash/recovery outcomes, zip validity or the size estimate (level 'other').",
+		Technique: "static analysis: dominance on error-success edges, path pruning under row-state assumptions, value identity/dependence over go/ssa, table agreement between row writers and parsers, value dependence of the stored part count on the part-index source, pairing of (ref, size) descriptions by local element flow with dominating == facts between the recorded and the store-reported size",
+		LevelText: "Decides structural necessary conditions only: the zip is stored before its rows are committed and the rows before loose copies are removed; stored zips are bounded by the blob size limit; reads pick small vs. large by the meta row of the same ref; packer, reindex and the parsers agree on the meta row codec and reindex reads only manifest fields the packer writes; the part count of the whole-file row is computed from the part indexes that key the part rows and the reader serves a whole file only when both agree; a blob that gets a b: row / manifest entry is recorded with the size the store reports for it (or one proven equal by an == guard) and its bytes are copied uncapped from the fetch of the same ref, so a part that references only a prefix of a longer blob cannot be packed as if it were the blob. Does not decide the arithmetic of that count, byte-level equality of what clients see, crash/recovery outcomes, zip validity or the size estimate (level 'other').",
 	})
 }
 
@@ -53,6 +55,7 @@ func runC04(p *Program, r *Reporter) {
 	c04ZCodec(p, r, writers)
 	c04ZCount(p, r, writers)
 	c04ZRecover(p, r)
+	c04ZWhole(p, r, writers)
 }
 
 // ---------------------------------------------------------------------------
@@ -3070,4 +3073,1204 @@ func c04ValueLeaves(fn *ssa.Function, v ssa.Value) map[string]ssa.Value {
 	fl := c04NewFlow(fn)
 	fl.field(v, nil, 0)
 	return fl.leaves
+}
+
+// ---------------------------------------------------------------------------
+// Z-whole-blob: a blob that gets a b: row (and a manifest entry) is moved into
+// the zip WHOLE — the recorded size is the size the store reports for that
+// ref (or a value proven equal to it by a dominating == fact) and the bytes
+// copied into the zip are the uncapped content of the fetch of that very ref.
+
+// c04ValuePreserving: converting an integer of type src to dst keeps its
+// mathematical value (sizes from the build configuration that was loaded).
+func c04ValuePreserving(p *Program, src, dst types.Type) bool {
+	sb, ok1 := src.Underlying().(*types.Basic)
+	db, ok2 := dst.Underlying().(*types.Basic)
+	if !ok1 || !ok2 || sb.Info()&types.IsInteger == 0 || db.Info()&types.IsInteger == 0 {
+		return false
+	}
+	sizes := p.Pkg(c04Rel).TypesSizes
+	if sizes == nil {
+		return false
+	}
+	sw, dw := sizes.Sizeof(sb), sizes.Sizeof(db)
+	su, du := sb.Info()&types.IsUnsigned != 0, db.Info()&types.IsUnsigned != 0
+	switch {
+	case su == du:
+		return dw >= sw
+	case su && !du:
+		return dw > sw
+	}
+	return false
+}
+
+// c04StripWiden strips value-preserving integer conversions, interface
+// conversions and loads of single-store locals.
+func c04StripWiden(p *Program, v ssa.Value) ssa.Value {
+	for i := 0; i < 32 && v != nil; i++ {
+		if cv, ok := v.(*ssa.Convert); ok {
+			if !c04ValuePreserving(p, cv.X.Type(), cv.Type()) {
+				return v
+			}
+			v = cv.X
+			continue
+		}
+		o := originValue(v)
+		if o == v {
+			return v
+		}
+		v = o
+	}
+	return v
+}
+
+// c04CmpFact normalises a branch fact to the relation that holds between two
+// operands (NOT and a false outcome are folded into the operator).
+func c04CmpFact(cond ssa.Value, val bool) (x, y ssa.Value, op token.Token, ok bool) {
+	for {
+		u, isU := cond.(*ssa.UnOp)
+		if !isU || u.Op != token.NOT {
+			break
+		}
+		cond, val = u.X, !val
+	}
+	bo, isB := cond.(*ssa.BinOp)
+	if !isB {
+		return nil, nil, 0, false
+	}
+	neg := map[token.Token]token.Token{token.EQL: token.NEQ, token.NEQ: token.EQL, token.LSS: token.GEQ, token.GEQ: token.LSS, token.GTR: token.LEQ, token.LEQ: token.GTR}
+	op = bo.Op
+	if _, known := neg[op]; !known {
+		return nil, nil, 0, false
+	}
+	if !val {
+		op = neg[op]
+	}
+	return bo.X, bo.Y, op, true
+}
+
+// c04ProvenEqual: do the facts at block b say that value a (already stripped)
+// equals a value accepted by isB? weaker names an ordering / inequality fact
+// between the two when that is all there is.
+func c04ProvenEqual(p *Program, b *ssa.BasicBlock, a ssa.Value, isB func(ssa.Value) bool) (eq bool, weaker string) {
+	for _, f := range FactsAt(b) {
+		x, y, op, ok := c04CmpFact(f.Cond, f.Val)
+		if !ok {
+			continue
+		}
+		sx, sy := c04StripWiden(p, x), c04StripWiden(p, y)
+		if !(sx == a && isB(sy)) && !(sy == a && isB(sx)) {
+			continue
+		}
+		if op == token.EQL {
+			return true, ""
+		}
+		if sy == a {
+			// render as "a OP other"
+			op = map[token.Token]token.Token{token.LSS: token.GTR, token.GTR: token.LSS, token.LEQ: token.GEQ, token.GEQ: token.LEQ, token.NEQ: token.NEQ}[op]
+		}
+		weaker = op.String()
+	}
+	return false, weaker
+}
+
+// c04RefSrc: a value a blob ref may come from, and the innermost append through
+// which it entered a slice on the way to the use (nil: used directly).
+type c04RefSrc struct {
+	val ssa.Value
+	app *ssa.Call
+}
+
+// c04AppendElems lists the values a locally built slice may hold, each with
+// the append call that put it there; ok=false when some contributor is opaque
+// (field load, call result, parameter, map lookup).
+func c04AppendElems(s ssa.Value, seen map[ssa.Value]bool) (out []c04RefSrc, ok bool) {
+	if seen[s] {
+		return nil, true
+	}
+	seen[s] = true
+	switch x := s.(type) {
+	case *ssa.Const:
+		return nil, x.Value == nil
+	case *ssa.MakeSlice:
+		return nil, true
+	case *ssa.Convert:
+		return c04AppendElems(x.X, seen)
+	case *ssa.ChangeType:
+		return c04AppendElems(x.X, seen)
+	case *ssa.Phi:
+		ok = true
+		for _, e := range x.Edges {
+			v, r := c04AppendElems(e, seen)
+			out = append(out, v...)
+			ok = ok && r
+		}
+		return out, ok
+	case *ssa.Call:
+		b, isB := x.Call.Value.(*ssa.Builtin)
+		if !isB || b.Name() != "append" || len(x.Call.Args) != 2 {
+			return nil, false
+		}
+		a, r1 := c04AppendElems(x.Call.Args[0], seen)
+		if elems, lit := c04VarargElems(x.Call.Args[1]); lit {
+			for _, e := range elems {
+				a = append(a, c04RefSrc{e, x})
+			}
+			return a, r1
+		}
+		c, r2 := c04AppendElems(x.Call.Args[1], seen)
+		return append(a, c...), r1 && r2
+	case *ssa.Slice:
+		if _, isAlloc := x.X.(*ssa.Alloc); isAlloc {
+			if elems, lit := c04VarargElems(x); lit {
+				for _, e := range elems {
+					out = append(out, c04RefSrc{e, nil})
+				}
+				return out, true
+			}
+			return nil, false
+		}
+		return c04AppendElems(x.X, seen)
+	case *ssa.UnOp:
+		if x.Op == token.MUL {
+			if al, isAl := x.X.(*ssa.Alloc); isAl && plainVariable(al) {
+				sts := storesTo(al)
+				ok = len(sts) > 0
+				for _, st := range sts {
+					v, r := c04AppendElems(st.Val, seen)
+					out = append(out, v...)
+					ok = ok && r
+				}
+				return out, ok
+			}
+		}
+	}
+	return nil, false
+}
+
+// c04RefSrcs resolves a ref-typed value through range loops over locally
+// built slices to the values that were appended to them.
+func c04RefSrcs(v ssa.Value) []c04RefSrc {
+	var out []c04RefSrc
+	seen := map[ssa.Value]bool{}
+	var walk func(v ssa.Value, app *ssa.Call, depth int)
+	walk = func(v ssa.Value, app *ssa.Call, depth int) {
+		if ct, ok := v.(*ssa.ChangeType); ok {
+			v = ct.X
+		}
+		if seen[v] {
+			return
+		}
+		seen[v] = true
+		if depth < 24 {
+			switch x := v.(type) {
+			case *ssa.Phi:
+				for _, e := range x.Edges {
+					walk(e, app, depth+1)
+				}
+				return
+			case *ssa.UnOp:
+				if x.Op == token.MUL {
+					switch a := x.X.(type) {
+					case *ssa.IndexAddr:
+						if elems, ok := c04AppendElems(a.X, map[ssa.Value]bool{}); ok && len(elems) > 0 {
+							for _, e := range elems {
+								ap := e.app
+								if ap == nil {
+									ap = app
+								}
+								walk(e.val, ap, depth+1)
+							}
+							return
+						}
+					case *ssa.Alloc:
+						if plainVariable(a) {
+							if sts := storesTo(a); len(sts) > 0 {
+								for _, st := range sts {
+									walk(st.Val, app, depth+1)
+								}
+								return
+							}
+						}
+					}
+				}
+			}
+		}
+		out = append(out, c04RefSrc{v, app})
+	}
+	walk(v, nil, 0)
+	return out
+}
+
+// c04SameRef: a and b denote the same blob ref: the same value, or two loads
+// of the same element (same slice value, same index value) of a slice.
+func c04SameRef(a, b ssa.Value) bool {
+	if sameOrigin(a, b) {
+		return true
+	}
+	la, ok1 := originValue(a).(*ssa.UnOp)
+	lb, ok2 := originValue(b).(*ssa.UnOp)
+	if !ok1 || !ok2 || la.Op != token.MUL || lb.Op != token.MUL {
+		return false
+	}
+	ia, ok1 := la.X.(*ssa.IndexAddr)
+	ib, ok2 := lb.X.(*ssa.IndexAddr)
+	if !ok1 || !ok2 || !sameOrigin(ia.X, ib.X) {
+		return false
+	}
+	if sameOrigin(ia.Index, ib.Index) {
+		return true
+	}
+	ca, ok1 := ConstInt(ia.Index)
+	cb, ok2 := ConstInt(ib.Index)
+	return ok1 && ok2 && ca == cb
+}
+
+// c04MaybeSameRef: not the same value, but both resolve through local element
+// flow to exactly the same sources (e.g. two different elements of one slice):
+// the rule cannot tell whether they are the same element.
+func c04MaybeSameRef(a, b ssa.Value) bool {
+	sa, sb := c04RefSrcs(a), c04RefSrcs(b)
+	if len(sa) == 0 || len(sa) != len(sb) {
+		return false
+	}
+	for _, x := range sa {
+		found := false
+		for _, y := range sb {
+			if x.val == y.val || sameOrigin(x.val, y.val) {
+				found = true
+			}
+		}
+		if !found {
+			return false
+		}
+	}
+	return true
+}
+
+// c04FieldVals: the values that may have been stored into field path `path`
+// of struct value w, following local composite literals, copies of locals and
+// (at the top only, via c04FieldLoad) elements of locally built slices.
+func c04FieldVals(fl *c04Flow, w ssa.Value, path []int, depth int) ([]ssa.Value, bool) {
+	if len(path) == 0 {
+		return []ssa.Value{w}, true
+	}
+	if depth > 24 {
+		return nil, false
+	}
+	switch x := w.(type) {
+	case *ssa.UnOp:
+		if x.Op == token.MUL {
+			return c04FieldLoad(fl, x.X, path, depth+1)
+		}
+	case *ssa.Field:
+		return c04FieldVals(fl, x.X, append([]int{x.Field}, path...), depth+1)
+	case *ssa.ChangeType:
+		return c04FieldVals(fl, x.X, path, depth+1)
+	case *ssa.Phi:
+		var out []ssa.Value
+		for _, e := range x.Edges {
+			v, ok := c04FieldVals(fl, e, path, depth+1)
+			if !ok {
+				return nil, false
+			}
+			out = append(out, v...)
+		}
+		return out, true
+	}
+	return nil, false
+}
+
+func c04FieldLoad(fl *c04Flow, addr ssa.Value, path []int, depth int) ([]ssa.Value, bool) {
+	switch a := addr.(type) {
+	case *ssa.FieldAddr:
+		return c04FieldLoad(fl, a.X, append([]int{a.Field}, path...), depth+1)
+	case *ssa.Alloc:
+		var out []ssa.Value
+		for _, ps := range fl.stores[a] {
+			n := len(ps.path)
+			if n > len(path) {
+				n = len(path)
+			}
+			if fmt.Sprint(ps.path[:n]) != fmt.Sprint(path[:n]) {
+				continue
+			}
+			if len(ps.path) > len(path) {
+				return nil, false // the field is assembled piecewise below the path asked for
+			}
+			v, ok := c04FieldVals(fl, ps.st.Val, path[len(ps.path):], depth+1)
+			if !ok {
+				return nil, false
+			}
+			out = append(out, v...)
+		}
+		return out, true
+	case *ssa.IndexAddr:
+		elems, ok := c04AppendElems(a.X, map[ssa.Value]bool{})
+		if !ok {
+			return nil, false
+		}
+		var out []ssa.Value
+		for _, e := range elems {
+			v, ok := c04FieldVals(fl, e.val, path, depth+1)
+			if !ok {
+				return nil, false
+			}
+			out = append(out, v...)
+		}
+		return out, true
+	}
+	return nil, false
+}
+
+// c04SizedRefPath: field path from struct type t to its blob.SizedRef part
+// (the type itself, or a unique field / embedded field of that type), and the
+// indexes of Ref and Size in blob.SizedRef.
+func c04SizedRefPath(t types.Type) (path []int, refIdx, sizeIdx int, ok bool) {
+	find := func(st *types.Struct) (int, int, bool) {
+		ri, si := -1, -1
+		for i := 0; i < st.NumFields(); i++ {
+			switch st.Field(i).Name() {
+			case "Ref":
+				ri = i
+			case "Size":
+				si = i
+			}
+		}
+		return ri, si, ri >= 0 && si >= 0
+	}
+	if IsNamed(t, c04BlobPkg, "SizedRef") {
+		st, isSt := t.Underlying().(*types.Struct)
+		if !isSt {
+			return nil, 0, 0, false
+		}
+		ri, si, k := find(st)
+		return nil, ri, si, k
+	}
+	st, isSt := t.Underlying().(*types.Struct)
+	if !isSt {
+		return nil, 0, 0, false
+	}
+	n := 0
+	for i := 0; i < st.NumFields(); i++ {
+		if IsNamed(st.Field(i).Type(), c04BlobPkg, "SizedRef") {
+			if sst, isS := st.Field(i).Type().Underlying().(*types.Struct); isS {
+				if ri, si, k := find(sst); k {
+					path, refIdx, sizeIdx, ok = []int{i}, ri, si, true
+					n++
+				}
+			}
+		}
+	}
+	return path, refIdx, sizeIdx, ok && n == 1
+}
+
+// c04AddrChain decomposes a load `*(&(&base.f).g)` into base and [f g].
+func c04AddrChain(v ssa.Value) (base ssa.Value, path []int, ok bool) {
+	ld, isLd := v.(*ssa.UnOp)
+	if !isLd || ld.Op != token.MUL {
+		return nil, nil, false
+	}
+	addr := ld.X
+	for {
+		fa, isFA := addr.(*ssa.FieldAddr)
+		if !isFA {
+			break
+		}
+		path = append([]int{fa.Field}, path...)
+		addr = fa.X
+	}
+	return addr, path, len(path) > 0
+}
+
+// c04WholeEntry: one (ref, size) description of a packed blob.
+type c04WholeEntry struct {
+	kind  string          // "b:-row" / "manifest <field>"
+	site  ssa.Instruction // where the description is built (element value) or used
+	ref   ssa.Value
+	size  ssa.Value
+	undec string
+}
+
+// c04PairUp splits the (ref, size) operands of a row writer into one pair per
+// element constructor when both are read from the same element of a locally
+// built slice of structs.
+func c04PairUp(fn *ssa.Function, kind string, at ssa.Instruction, vr, vs ssa.Value) []c04WholeEntry {
+	fl := c04NewFlow(fn)
+	single := func(why string) []c04WholeEntry {
+		return []c04WholeEntry{{kind: kind, site: at, ref: vr, size: vs, undec: why}}
+	}
+	br, pr, ok1 := c04AddrChain(vr)
+	bs, ps, ok2 := c04AddrChain(c04StripConv(vs))
+	if !ok1 || !ok2 || br != bs {
+		return single("")
+	}
+	var elems []c04RefSrc
+	switch b := br.(type) {
+	case *ssa.IndexAddr:
+		es, ok := c04AppendElems(b.X, map[ssa.Value]bool{})
+		if !ok {
+			return single("the slice the row is built from is not assembled in this function")
+		}
+		elems = es
+	case *ssa.Alloc:
+		for _, pst := range fl.stores[b] {
+			if len(pst.path) != 0 {
+				return single("")
+			}
+			w := pst.st.Val
+			if ld, isLd := w.(*ssa.UnOp); isLd && ld.Op == token.MUL {
+				if ia, isIA := ld.X.(*ssa.IndexAddr); isIA {
+					es, ok := c04AppendElems(ia.X, map[ssa.Value]bool{})
+					if !ok {
+						return single("the slice the row is built from is not assembled in this function")
+					}
+					elems = append(elems, es...)
+					continue
+				}
+			}
+			elems = append(elems, c04RefSrc{w, nil})
+		}
+	default:
+		return single("")
+	}
+	if len(elems) == 0 {
+		return single("")
+	}
+	var out []c04WholeEntry
+	for _, e := range elems {
+		ent := c04WholeEntry{kind: kind, site: at}
+		if in, isIn := e.val.(ssa.Instruction); isIn {
+			ent.site = in
+		}
+		rv, okr := c04FieldVals(fl, e.val, pr, 0)
+		sv, oks := c04FieldVals(fl, e.val, ps, 0)
+		switch {
+		case !okr || !oks:
+			ent.undec = "a field of the element cannot be followed to the value stored in it"
+		case len(rv) != 1 || len(sv) != 1:
+			ent.undec = fmt.Sprintf("the element has %d ref and %d size candidates; the rule pairs exactly one with one", len(rv), len(sv))
+		default:
+			ent.ref, ent.size = rv[0], sv[0]
+		}
+		out = append(out, ent)
+	}
+	return out
+}
+
+// c04SizeTerm classifies what a recorded size is.
+type c04SizeTerm struct {
+	kind string     // "store": size result of a Fetch/StatBlob of ref; "map": m[ref] of a struct-field map; "blob": (*blob.Blob).Size() of blob; "other"
+	call *ssa.Call  // store: the fetch/stat call
+	ref  ssa.Value  // store: its ref argument; map: the key; blob: the key/ref the blob was obtained for (nil if unknown)
+	fid  c04FieldID // map / blob-from-map: the map field
+	blob ssa.Value  // blob: the *blob.Blob value
+	desc string
+}
+
+func c04RefArg(call *ssa.Call) ssa.Value {
+	for _, a := range call.Call.Args {
+		if c04IsRef(a.Type()) {
+			return a
+		}
+	}
+	return nil
+}
+
+// c04IsFetchCall: a call named Fetch returning (reader, uint32 size, error)
+// for a blob.Ref argument (blob.Fetcher and every implementation of it).
+func c04IsFetchCall(call *ssa.Call) bool {
+	if (CallSite{call.Parent(), call}).MethodName() != "Fetch" || c04RefArg(call) == nil {
+		return false
+	}
+	tup, ok := call.Type().(*types.Tuple)
+	if !ok || tup.Len() != 3 || !isErrorType(tup.At(2).Type()) {
+		return false
+	}
+	b, ok := tup.At(1).Type().Underlying().(*types.Basic)
+	return ok && b.Info()&types.IsInteger != 0
+}
+
+func c04IsStatCall(call *ssa.Call) bool {
+	c := CallSite{call.Parent(), call}
+	return c.IsStatic(c04BSPkg, "", "StatBlob") && c04RefArg(call) != nil
+}
+
+// c04MapLookup: v is m[k] (plain or comma-ok) where m is loaded from a field
+// of a named struct.
+func c04MapLookup(v ssa.Value) (fid c04FieldID, key ssa.Value, ok bool) {
+	if ex, isEx := v.(*ssa.Extract); isEx && ex.Index == 0 {
+		v = ex.Tuple
+	}
+	lk, isLk := v.(*ssa.Lookup)
+	if !isLk {
+		return fid, nil, false
+	}
+	if _, isMap := lk.X.Type().Underlying().(*types.Map); !isMap {
+		return fid, nil, false
+	}
+	m := originValue(lk.X)
+	ld, isLd := m.(*ssa.UnOp)
+	if !isLd || ld.Op != token.MUL {
+		return fid, nil, false
+	}
+	fid, ok = c04FieldOf(ld.X)
+	return fid, lk.Index, ok
+}
+
+func c04IsBlobMethod(call *ssa.Call, names ...string) bool {
+	c := CallSite{call.Parent(), call}
+	for _, n := range names {
+		if c.IsStatic(c04BlobPkg, "Blob", n) {
+			return true
+		}
+	}
+	return false
+}
+
+func c04ClassifySize(p *Program, v ssa.Value) c04SizeTerm {
+	v = c04StripWiden(p, v)
+	if ex, ok := v.(*ssa.Extract); ok {
+		if call, isC := ex.Tuple.(*ssa.Call); isC && ex.Index == 1 && c04IsFetchCall(call) {
+			return c04SizeTerm{kind: "store", call: call, ref: c04RefArg(call), desc: "size<-Fetch(ref)"}
+		}
+	}
+	// .Size of the SizedRef returned by blobserver.StatBlob
+	if f, ok := v.(*ssa.Field); ok && IsNamed(f.X.Type(), c04BlobPkg, "SizedRef") && fieldName(f.X.Type(), f.Field) == "Size" {
+		if ex, isEx := originValue(f.X).(*ssa.Extract); isEx && ex.Index == 0 {
+			if call, isC := ex.Tuple.(*ssa.Call); isC && c04IsStatCall(call) {
+				return c04SizeTerm{kind: "store", call: call, ref: c04RefArg(call), desc: "size<-StatBlob(ref)"}
+			}
+		}
+	}
+	if fid, key, ok := c04MapLookup(v); ok {
+		return c04SizeTerm{kind: "map", fid: fid, ref: key, desc: "size<-" + fid.String() + "[ref]"}
+	}
+	if call, ok := v.(*ssa.Call); ok && c04IsBlobMethod(call, "Size") && len(call.Call.Args) == 1 {
+		t := c04SizeTerm{kind: "blob", blob: call.Call.Args[0], desc: "size<-Blob.Size()"}
+		b := originValue(t.blob)
+		if fid, key, isLk := c04MapLookup(b); isLk {
+			t.fid, t.ref = fid, key
+			t.desc = "size<-Blob.Size(" + fid.String() + "[ref])"
+		} else if ex, isEx := b.(*ssa.Extract); isEx && ex.Index == 0 {
+			if fc, isC := ex.Tuple.(*ssa.Call); isC && (CallSite{fc.Parent(), fc}).IsStatic(c04BlobPkg, "", "FromFetcher") {
+				t.ref = c04RefArg(fc)
+				t.desc = "size<-Blob.Size(FromFetcher(ref))"
+			}
+		}
+		return t
+	}
+	return c04SizeTerm{kind: "other", desc: "size<-?"}
+}
+
+// c04SameBlob: two *blob.Blob values denote the same blob object (same value,
+// or lookups of the same struct-field map under the same ref).
+func c04SameBlob(a, b ssa.Value) bool {
+	if sameOrigin(a, b) {
+		return true
+	}
+	fa, ka, ok1 := c04MapLookup(originValue(a))
+	fb, kb, ok2 := c04MapLookup(originValue(b))
+	return ok1 && ok2 && fa == fb && c04SameRef(ka, kb)
+}
+
+// c04FieldWrites lists, package wide, the instructions that change a map held
+// in struct field fid: map updates through a load of the field, and stores to
+// the field itself (other than the initial composite literal of the struct).
+func c04FieldWrites(fns []*ssa.Function, fid c04FieldID) (updates []*ssa.MapUpdate, assigns []*ssa.Store) {
+	var visit func(f *ssa.Function)
+	visit = func(f *ssa.Function) {
+		for _, b := range f.Blocks {
+			for _, in := range b.Instrs {
+				switch x := in.(type) {
+				case *ssa.MapUpdate:
+					if ld, ok := originValue(x.Map).(*ssa.UnOp); ok && ld.Op == token.MUL {
+						if id, isF := c04FieldOf(ld.X); isF && id == fid {
+							updates = append(updates, x)
+						}
+					}
+				case *ssa.Store:
+					if id, isF := c04FieldOf(x.Addr); isF && id == fid {
+						assigns = append(assigns, x)
+					}
+				}
+			}
+		}
+		for _, a := range f.AnonFuncs {
+			visit(a)
+		}
+	}
+	for _, f := range fns {
+		if f.Parent() == nil {
+			visit(f)
+		}
+	}
+	return updates, assigns
+}
+
+// c04ZipEntryWriter: v is the io.Writer returned by (*zip.Writer).Create*;
+// returns the creating call.
+func c04ZipEntryWriter(v ssa.Value) *ssa.Call {
+	ex, ok := v.(*ssa.Extract)
+	if !ok || ex.Index != 0 {
+		return nil
+	}
+	call, ok := ex.Tuple.(*ssa.Call)
+	if !ok {
+		return nil
+	}
+	c := CallSite{call.Parent(), call}
+	for _, n := range []string{"Create", "CreateHeader", "CreateRaw"} {
+		if c.IsStatic("archive/zip", "Writer", n) {
+			return call
+		}
+	}
+	return nil
+}
+
+// c04Copy: one io.Copy-family call with its classified source.
+type c04Copy struct {
+	call    *ssa.Call
+	src     ssa.Value   // innermost reader reached through known wrappers
+	caps    []ssa.Value // CopyN length / LimitReader limits on the way
+	entries []*ssa.Call // zip entry writers the destination depends on
+}
+
+func c04Copies(fn *ssa.Function) []c04Copy {
+	var out []c04Copy
+	for _, c := range CallsIn(fn, false) {
+		call := c.Value()
+		if call == nil {
+			continue
+		}
+		var cp c04Copy
+		switch {
+		case c.IsStatic("io", "", "Copy"), c.IsStatic("io", "", "CopyBuffer"):
+		case c.IsStatic("io", "", "CopyN"):
+			cp.caps = append(cp.caps, call.Call.Args[2])
+		default:
+			continue
+		}
+		cp.call = call
+		v := call.Call.Args[1]
+		for i := 0; i < 16; i++ {
+			v = originValue(v)
+			inner, isCall := v.(*ssa.Call)
+			if !isCall {
+				break
+			}
+			ic := CallSite{inner.Parent(), inner}
+			switch {
+			case ic.IsStatic("io", "", "LimitReader"):
+				cp.caps = append(cp.caps, inner.Call.Args[1])
+				v = inner.Call.Args[0]
+				continue
+			case ic.IsStatic("io", "", "TeeReader"), ic.IsStatic("bufio", "", "NewReader"), ic.IsStatic("bufio", "", "NewReaderSize"), ic.IsStatic("io", "", "NopCloser"):
+				v = inner.Call.Args[0]
+				continue
+			}
+			break
+		}
+		cp.src = originValue(v)
+		seenEntry := map[*ssa.Call]bool{}
+		c04Depends(call.Call.Args[0], func(x ssa.Value) bool {
+			if zc := c04ZipEntryWriter(x); zc != nil && !seenEntry[zc] {
+				seenEntry[zc] = true
+				cp.entries = append(cp.entries, zc)
+			}
+			return false
+		})
+		out = append(out, cp)
+	}
+	return out
+}
+
+// c04EntryNameRefs: the blob-ref holes of the name of the zip entry created by
+// call (Create(name) / CreateHeader(&FileHeader{Name: ...})).
+func c04EntryNameRefs(create *ssa.Call) (refs []ssa.Value, err string) {
+	arg := create.Call.Args[1]
+	var name ssa.Value
+	if b, ok := arg.Type().Underlying().(*types.Basic); ok && b.Info()&types.IsString != 0 {
+		name = arg
+	} else {
+		al, isAl := originValue(arg).(*ssa.Alloc)
+		if !isAl {
+			return nil, "the zip entry header is not a local composite literal"
+		}
+		for _, b := range al.Parent().Blocks {
+			for _, in := range b.Instrs {
+				st, isSt := in.(*ssa.Store)
+				if !isSt {
+					continue
+				}
+				if fa, isFA := st.Addr.(*ssa.FieldAddr); isFA && fa.X == ssa.Value(al) && fieldName(fa.X.Type(), fa.Field) == "Name" {
+					if name != nil {
+						return nil, "the zip entry name is assigned more than once"
+					}
+					name = st.Val
+				}
+			}
+		}
+		if name == nil {
+			return nil, "the zip entry header has no Name"
+		}
+	}
+	toks, e := c04Shape(name, 0)
+	if e != "" {
+		return nil, "the zip entry name cannot be evaluated: " + e
+	}
+	for _, t := range toks {
+		if t.Hole && t.class() == "ref" {
+			if t.Val == nil {
+				return nil, "the zip entry name renders a ref inside a helper"
+			}
+			refs = append(refs, t.Val)
+		}
+	}
+	return refs, ""
+}
+
+func c04ZWhole(p *Program, r *Reporter, writers []*c04Writer) {
+	const rule = "Z-whole-blob"
+	fn := p.Func(c04Rel, "packer", "writeAZip")
+	key := FuncKey(fn)
+	pkgFns := p.FuncsIn(c04Rel)
+	recvs := c04LargeReceives(fn)
+	copies := c04Copies(fn)
+	r.Analysed("writeAZip_copy_calls", len(copies))
+
+	// every path from `from` to a receive of the zip into large passes `via`
+	covers := func(via, from ssa.Instruction) bool {
+		if Precedes(via, from) {
+			return true
+		}
+		if via.Parent() != from.Parent() || len(recvs) == 0 {
+			return false
+		}
+		reach := ReachableFrom(from, func(in ssa.Instruction) bool { return in == via })
+		for _, rc := range recvs {
+			if reach[rc.c.Instr] {
+				return false
+			}
+		}
+		return true
+	}
+
+	// ---- the descriptions: b: rows of the batch and manifest entries
+	var entries []c04WholeEntry
+	bKind := c04StrConst(p, "blobMetaPrefix") + "<ref>"
+	for _, w := range writers {
+		if w.c.Fn != fn || w.kind != bKind {
+			continue
+		}
+		ent := c04WholeEntry{kind: "b:-row", site: w.c.Instr}
+		if w.keyErr != "" || w.valErr != "" {
+			ent.undec = "row shape cannot be followed: " + w.keyErr + " " + w.valErr
+			entries = append(entries, ent)
+			continue
+		}
+		var vr, vs ssa.Value
+		for _, t := range w.key {
+			if t.Hole && t.class() == "ref" {
+				vr = t.Val
+			}
+		}
+		if fs, ok := c04Fields(w.val); ok && len(fs) > 0 && fs[0].class() == "int" {
+			vs = fs[0].Val
+		}
+		if vr == nil || vs == nil {
+			ent.undec = "the ref of the key or the size field (#0 of the value, as parseMetaRow reads it) is rendered inside a helper"
+			entries = append(entries, ent)
+			continue
+		}
+		entries = append(entries, c04PairUp(fn, "b:-row", w.c.Instr, vr, vs)...)
+	}
+	maniT := p.NamedType(c04Rel, "Manifest")
+	for _, b := range fn.Blocks {
+		for _, in := range b.Instrs {
+			st, ok := in.(*ssa.Store)
+			if !ok {
+				continue
+			}
+			fa, ok := st.Addr.(*ssa.FieldAddr)
+			if !ok || NamedOf(fa.X.Type()) != maniT {
+				continue
+			}
+			sl, ok := st.Val.Type().Underlying().(*types.Slice)
+			if !ok {
+				continue
+			}
+			path, ri, si, ok := c04SizedRefPath(sl.Elem())
+			if !ok {
+				continue
+			}
+			kind := "manifest." + fieldName(fa.X.Type(), fa.Field)
+			// new elements: literal arguments of the append; the base must be the field itself or a locally built slice
+			var elems []c04RefSrc
+			resolved := false
+			if app, isApp := st.Val.(*ssa.Call); isApp {
+				if bi, isB := app.Call.Value.(*ssa.Builtin); isB && bi.Name() == "append" && len(app.Call.Args) == 2 {
+					selfBase := false
+					if ld, isLd := app.Call.Args[0].(*ssa.UnOp); isLd && ld.Op == token.MUL {
+						if fa2, isFA := ld.X.(*ssa.FieldAddr); isFA && fa2.X == fa.X && fa2.Field == fa.Field {
+							selfBase = true
+						}
+					}
+					if lit, isLit := c04VarargElems(app.Call.Args[1]); isLit && selfBase {
+						for _, e := range lit {
+							elems = append(elems, c04RefSrc{e, app})
+						}
+						resolved = true
+					}
+				}
+			}
+			if !resolved {
+				es, ok := c04AppendElems(st.Val, map[ssa.Value]bool{})
+				if !ok {
+					entries = append(entries, c04WholeEntry{kind: kind, site: st, undec: "the manifest entries are not assembled element by element in this function"})
+					continue
+				}
+				elems = es
+			}
+			fl := c04NewFlow(fn)
+			for _, e := range elems {
+				ent := c04WholeEntry{kind: kind, site: st}
+				if ein, isIn := e.val.(ssa.Instruction); isIn {
+					ent.site = ein
+				}
+				rv, okr := c04FieldVals(fl, e.val, append(append([]int{}, path...), ri), 0)
+				sv, oks := c04FieldVals(fl, e.val, append(append([]int{}, path...), si), 0)
+				switch {
+				case !okr || !oks:
+					ent.undec = "a field of the manifest entry cannot be followed to the value stored in it"
+				case len(rv) != 1 || len(sv) != 1:
+					ent.undec = fmt.Sprintf("the manifest entry has %d ref and %d size candidates; the rule pairs exactly one with one", len(rv), len(sv))
+				default:
+					ent.ref, ent.size = rv[0], sv[0]
+				}
+				entries = append(entries, ent)
+			}
+		}
+	}
+	r.Analysed("whole_blob_descriptions", len(entries))
+	if len(entries) == 0 {
+		r.Violation(rule, key+"#descriptions", p.Pos(fn.Pos()), "writeAZip builds no b: row and no manifest entry the rule can find")
+	}
+
+	isSizeOf := func(f *ssa.Call) func(ssa.Value) bool {
+		return func(x ssa.Value) bool {
+			t := c04ClassifySize(p, x)
+			return t.kind == "store" && t.call == f
+		}
+	}
+	// sizeEq: value v is the size reported by fetch f, or proven equal to it at block b
+	sizeEq := func(v ssa.Value, f *ssa.Call, b *ssa.BasicBlock) bool {
+		sv := c04StripWiden(p, v)
+		if isSizeOf(f)(sv) {
+			return true
+		}
+		eq, _ := c04ProvenEqual(p, b, sv, isSizeOf(f))
+		return eq
+	}
+
+	seenConstruct := map[string]int{}
+	for _, ent := range entries {
+		site := p.Pos(ent.site.Pos())
+		if ent.undec != "" {
+			r.Undecided(rule, key+"#"+ent.kind+" ?", site, ent.undec)
+			continue
+		}
+		term := c04ClassifySize(p, ent.size)
+		base := key + "#" + ent.kind + " " + term.desc
+		if n := seenConstruct[base]; n > 0 {
+			base = fmt.Sprintf("%s/%d", base, n+1)
+		}
+		seenConstruct[key+"#"+ent.kind+" "+term.desc]++
+		cSize, cBytes := base+"#size", base+"#bytes"
+		srcs := c04RefSrcs(ent.ref)
+
+		switch term.kind {
+		case "other":
+			r.Undecided(rule, cSize, site, "the recorded size is neither the size result of a Fetch/StatBlob, nor a lookup in a map field of the packer, nor the Size() of a *blob.Blob: the rule cannot relate it to the blob's real size")
+			continue
+
+		case "blob":
+			// (iii) schema blobs: the *blob.Blob object is the whole blob of that ref
+			okKey := term.ref != nil && c04SameRef(term.ref, ent.ref)
+			switch {
+			case term.ref == nil:
+				r.Undecided(rule, cSize, site, "the *blob.Blob whose Size() is recorded is neither looked up in a map field of the packer nor obtained from blob.FromFetcher here")
+			case !okKey && c04MaybeSameRef(term.ref, ent.ref):
+				r.Undecided(rule, cSize, site, "the recorded size is the Size() of the Blob held for a ref that comes from the same collection as the recorded ref but is not the same value: the rule cannot tell that it is the same element")
+			case !okKey:
+				r.Violation(rule, cSize, site, "packed size may differ from the blob's size: the recorded size is the Size() of the Blob held for a different ref than the one recorded")
+			case term.fid.named == nil:
+				r.OK(rule, cSize, site, "recorded size is Size() of blob.FromFetcher(<the recorded ref>): FromFetcher reads exactly the size the store reports and refuses longer or shorter content")
+			default:
+				ups, assigns := c04FieldWrites(pkgFns, term.fid)
+				bad := ""
+				for _, u := range ups {
+					good := false
+					if ex, isEx := originValue(u.Value).(*ssa.Extract); isEx && ex.Index == 0 {
+						if fc, isC := ex.Tuple.(*ssa.Call); isC && (CallSite{fc.Parent(), fc}).IsStatic(c04BlobPkg, "", "FromFetcher") {
+							if ra := c04RefArg(fc); ra != nil && sameOrigin(ra, u.Key) {
+								good = true
+							}
+						}
+					}
+					if !good {
+						bad = fmt.Sprintf("%s (line %d) stores under a ref a Blob that is not blob.FromFetcher of that same ref", FuncKey(u.Parent()), c04Line(p, u.Pos()))
+					}
+				}
+				for _, a := range assigns {
+					if _, isMk := originValue(a.Val).(*ssa.MakeMap); !isMk {
+						bad = fmt.Sprintf("%s (line %d) replaces the map %s", FuncKey(a.Parent()), c04Line(p, a.Pos()), term.fid)
+					}
+				}
+				if len(ups) == 0 && bad == "" {
+					bad = "no writer of " + term.fid.String() + " found"
+				}
+				if bad != "" {
+					r.Undecided(rule, cSize, site, "cannot tell that the Blob held in "+term.fid.String()+" under a ref is that ref's whole blob: "+bad)
+				} else {
+					r.OK(rule, cSize, site, fmt.Sprintf("recorded size is Size() of %s[<the recorded ref>]; every writer of that map (%d) stores blob.FromFetcher(_, key) under key (FromFetcher reads exactly the size the store reports and refuses longer or shorter content)", term.fid, len(ups)))
+				}
+			}
+			// bytes: a copy from a reader of the same Blob into a zip entry named after the same ref, on every path to the receive
+			nGood, bad, undec := 0, "", ""
+			for _, cp := range copies {
+				ex, isEx := cp.src.(*ssa.Extract)
+				var rd *ssa.Call
+				if isEx && ex.Index == 0 {
+					rd, _ = ex.Tuple.(*ssa.Call)
+				} else {
+					rd, _ = cp.src.(*ssa.Call)
+				}
+				if rd == nil || !c04IsBlobMethod(rd, "ReadAll") || !c04SameBlob(rd.Call.Args[0], term.blob) {
+					if c04Depends(cp.call.Call.Args[1], func(x ssa.Value) bool {
+						xc, isC := x.(*ssa.Call)
+						return isC && c04IsBlobMethod(xc, "ReadAll") && c04SameBlob(xc.Call.Args[0], term.blob)
+					}) {
+						undec = fmt.Sprintf("the copy at line %d reads the Blob through a wrapper the rule does not know", c04Line(p, cp.call.Pos()))
+					}
+					continue
+				}
+				if len(cp.entries) == 0 || !covers(cp.call, ent.site) {
+					continue
+				}
+				capOK := true
+				for _, n := range cp.caps {
+					sn := c04StripWiden(p, n)
+					sc, isC := sn.(*ssa.Call)
+					if !isC || !c04IsBlobMethod(sc, "Size") || !c04SameBlob(sc.Call.Args[0], term.blob) {
+						capOK = false
+					}
+				}
+				if !capOK {
+					bad = fmt.Sprintf("the copy at line %d is capped at a length that is not the Blob's Size(): only a prefix of the blob may reach the zip while the row/manifest/zip header describe it as the blob", c04Line(p, cp.call.Pos()))
+					continue
+				}
+				for _, zc := range cp.entries {
+					refs, e := c04EntryNameRefs(zc)
+					switch {
+					case e != "":
+						undec = e
+					case len(refs) != 1:
+						undec = fmt.Sprintf("the zip entry the blob is copied into is named with %d blob refs; foreachZipBlob/reindex derive the blob's ref from that name", len(refs))
+					case !c04SameRef(refs[0], ent.ref) && c04MaybeSameRef(refs[0], ent.ref):
+						undec = "the zip entry is named after a ref that comes from the same collection as the recorded ref but is not the same value"
+					case !c04SameRef(refs[0], ent.ref):
+						bad = fmt.Sprintf("the blob is copied into a zip entry (line %d) named after a different ref than the one recorded: reindex, which derives ref and size from the entry, maps the bytes to the wrong blob", c04Line(p, zc.Pos()))
+					default:
+						nGood++
+					}
+				}
+			}
+			switch {
+			case bad != "":
+				r.Violation(rule, cBytes, site, bad)
+			case undec != "":
+				r.Undecided(rule, cBytes, site, undec)
+			case nGood == 0:
+				r.Violation(rule, cBytes, site, "no io.Copy from ReadAll of the Blob whose Size() is recorded into a zip entry lies on every path from this description to the receive of the zip into large: the described bytes may not be in the zip")
+			default:
+				r.OK(rule, cBytes, site, "on every path to the receive of the zip: io.Copy of the uncapped reader of the same Blob into the zip entry named after the recorded ref")
+			}
+			continue
+		}
+
+		// "store" / "map": data chunks. For every source of the ref: a fetch of that ref before the
+		// point where it is recorded, the recorded size equal to the fetch's, the fetch's reader copied whole.
+		if term.ref == nil || !c04SameRef(term.ref, ent.ref) {
+			if term.ref != nil && c04MaybeSameRef(term.ref, ent.ref) {
+				r.Undecided(rule, cSize, site, "the size is obtained for a ref that comes from the same collection as the recorded ref but is not the same value: the rule cannot tell that it is the same element")
+			} else {
+				r.Violation(rule, cSize, site, "packed size may differ from the blob's size: the size is obtained for a different ref than the one it is recorded with")
+			}
+			continue
+		}
+		frozen := ""
+		if term.kind == "map" {
+			ups, assigns := c04FieldWrites([]*ssa.Function{fn}, term.fid)
+			if len(ups)+len(assigns) > 0 {
+				frozen = fmt.Sprintf("%s is modified inside writeAZip (%d site(s)): a comparison made at one point says nothing about the value read at another", term.fid, len(ups)+len(assigns))
+			}
+		}
+		sizeBad, sizeUndec, sizeGood := "", frozen, ""
+		bytesBad, bytesUndec, bytesGood := "", "", ""
+		if len(srcs) == 0 {
+			sizeUndec = "the recorded ref has no source the rule can find"
+		}
+		for _, src := range srcs {
+			var gate ssa.Instruction = ent.site
+			if src.app != nil {
+				gate = src.app
+			}
+			gline := c04Line(p, gate.Pos())
+			// the fetches of this ref that precede the gate
+			var fetches []*ssa.Call
+			if term.kind == "store" && src.app == nil {
+				fetches = []*ssa.Call{term.call}
+			} else {
+				for _, c := range CallsIn(fn, false) {
+					call := c.Value()
+					if call == nil || !(c04IsFetchCall(call) || c04IsStatCall(call)) {
+						continue
+					}
+					if sameOrigin(c04RefArg(call), src.val) && Precedes(call, gate) {
+						fetches = append(fetches, call)
+					}
+				}
+			}
+			if len(fetches) == 0 {
+				// the ref handed to a helper of the module: the fetch/compare/copy may live there
+				helper := ""
+				for _, c := range CallsIn(fn, false) {
+					f := c.Callee()
+					if f == nil || !InModule(f) || f.Blocks == nil || !Precedes(c.Instr, gate) {
+						continue
+					}
+					for _, a := range c.Common().Args {
+						if c04IsRef(a.Type()) && sameOrigin(a, src.val) {
+							helper = FuncKey(f)
+						}
+					}
+				}
+				if helper != "" {
+					sizeUndec = fmt.Sprintf("no Fetch/StatBlob of the ref in writeAZip itself precedes the point where it is recorded (line %d), but the ref is handed to %s: the rule does not follow the fetch, the size comparison and the copy into helpers", gline, helper)
+					bytesUndec = sizeUndec
+					continue
+				}
+				sizeBad = fmt.Sprintf("packed size may differ from the blob's size: the recorded size (%s) is never related to what the store reports for the blob — no Fetch/StatBlob of the ref precedes the point where the ref is recorded (line %d)", term.desc, gline)
+				bytesBad = fmt.Sprintf("no Fetch of the ref precedes the point where it is recorded as written (line %d): nothing shows its bytes were copied into the zip", gline)
+				continue
+			}
+			// (i) size
+			okSize, weaker := false, ""
+			for _, f := range fetches {
+				switch term.kind {
+				case "store":
+					if src.app == nil {
+						okSize = true
+					} else {
+						// the recorded size is a fetch size obtained in another iteration context: must be this fetch's
+						okSize = okSize || term.call == f
+					}
+				case "map":
+					fsz := ssa.Value(nil)
+					if c04IsFetchCall(f) {
+						fsz = ResultValue(f, 1)
+					}
+					if fsz == nil {
+						continue
+					}
+					eq, wk := c04ProvenEqual(p, gate.Block(), fsz, func(x ssa.Value) bool {
+						fid, k, ok := c04MapLookup(x)
+						return ok && fid == term.fid && sameOrigin(k, src.val)
+					})
+					if eq {
+						okSize = true
+					} else if wk != "" {
+						weaker = wk
+					}
+				}
+			}
+			switch {
+			case okSize:
+				sizeGood = fmt.Sprintf("where the ref is recorded (line %d) the size the store's Fetch reported for it is known == %s, the value recorded in the row/manifest", gline, strings.TrimPrefix(term.desc, "size<-"))
+				if term.kind == "store" {
+					sizeGood = "the recorded size is the size result of the Fetch/StatBlob of the recorded ref"
+				}
+			case weaker != "":
+				sizeBad = fmt.Sprintf("packed size may differ from the blob's size: where the ref is recorded (line %d) the only dominating fact is fetchedSize %s %s, which does not establish equality — a part that references a prefix (or claims more than) the stored blob is packed with the part's size, the b: row/manifest then describe the blob with that size and its loose copy is removed", gline, weaker, strings.TrimPrefix(term.desc, "size<-"))
+			default:
+				sizeBad = fmt.Sprintf("packed size may differ from the blob's size: where the ref is recorded (line %d) no dominating == fact relates the size Fetch reported for the blob to %s, the value recorded in the row/manifest", gline, strings.TrimPrefix(term.desc, "size<-"))
+			}
+			// (ii) bytes
+			nGood := 0
+			for _, f := range fetches {
+				if !c04IsFetchCall(f) {
+					continue
+				}
+				rc := ResultValue(f, 0)
+				if rc == nil {
+					continue
+				}
+				for _, cp := range copies {
+					derived := cp.src == rc || sameOrigin(cp.src, rc)
+					if !derived {
+						if c04Depends(cp.call.Call.Args[1], func(x ssa.Value) bool { return x == rc }) {
+							bytesUndec = fmt.Sprintf("the copy at line %d reads the fetched blob through a wrapper the rule does not know", c04Line(p, cp.call.Pos()))
+						}
+						continue
+					}
+					if len(cp.entries) == 0 || !covers(cp.call, gate) {
+						continue
+					}
+					capOK := true
+					for _, n := range cp.caps {
+						if !sizeEq(n, f, cp.call.Block()) {
+							capOK = false
+						}
+					}
+					if !capOK {
+						// a capped copy is still whole when the number of bytes copied is proven equal to the blob's size
+						cnt := ResultValue(cp.call, 0)
+						if cnt != nil {
+							if eq, _ := c04ProvenEqual(p, gate.Block(), cnt, func(x ssa.Value) bool { return sizeEq(x, f, gate.Block()) }); eq {
+								capOK = true
+							}
+						}
+					}
+					if !capOK {
+						bytesBad = fmt.Sprintf("the copy of the fetched blob into the zip (line %d) is capped (CopyN/LimitReader) at a length that is not proven equal to the size the store reported, and the copied count is not proven equal to it either: only a prefix of the blob reaches the zip, while its b: row makes the zip the only copy", c04Line(p, cp.call.Pos()))
+						continue
+					}
+					nGood++
+				}
+			}
+			if nGood > 0 {
+				bytesGood = fmt.Sprintf("before the ref is recorded (line %d) the reader of the Fetch of the same ref is copied into a zip entry, uncapped or capped at a length proven equal to the fetched size", gline)
+			} else if bytesBad == "" && bytesUndec == "" {
+				bytesBad = fmt.Sprintf("no io.Copy of the reader returned by the Fetch of the ref into a zip entry precedes the point where the ref is recorded as written (line %d)", gline)
+			}
+		}
+		switch {
+		case sizeBad != "":
+			r.Violation(rule, cSize, site, sizeBad)
+		case sizeUndec != "":
+			r.Undecided(rule, cSize, site, sizeUndec)
+		default:
+			r.OK(rule, cSize, site, sizeGood)
+		}
+		switch {
+		case bytesBad != "":
+			r.Violation(rule, cBytes, site, bytesBad)
+		case bytesUndec != "":
+			r.Undecided(rule, cBytes, site, bytesUndec)
+		default:
+			r.OK(rule, cBytes, site, bytesGood)
+		}
+	}
+	r.Floor(rule, 6)
 }
